@@ -41,11 +41,19 @@ def extract():
     after = False
     req = "noTimeout"  # a socket created by _create_socket keeps whatever was set before
     seen_connect = False
+    # statements that are executed conditionally (inside an `if`): a settimeout there does not always replace the
+    # connection timeout set before connect()
+    conditional = set()
+    for node in ast.walk(con):
+        if isinstance(node, ast.If):
+            for sub in ast.walk(node):
+                if isinstance(sub, ast.Call):
+                    conditional.add(id(sub))
     for _, attr, n in calls:
         if attr == "connect":
             seen_connect = True
         elif seen_connect and n.args:
-            req = _expr(n.args[0])
+            req = _expr(n.args[0]) if id(n) not in conditional else "other"
             after = True
     if not after:
         # no settimeout after connect: the connection timeout set before connect stays
